@@ -55,9 +55,14 @@ POOL: List[J] = [
      "dtcs": [{"name": "P0001", "code": 0x000001, "text": "one"},
               {"name": "P0123", "code": 0x012345, "text": "two"},
               {"name": "U1000", "code": 0xC10000, "text": "three"}]},
+    # inherits P0001/U1000 from "dtc" (P0123 excluded), adds one of its own
+    {"t": "DTCDOP", "name": "dtc_linked", "dct": dct_std("A_UINT32", 24), "ptype": "A_UINT32",
+     "compu": {"cat": "IDENTICAL"},
+     "dtcs": [{"name": "B2222", "code": 0x922222, "text": "own"}],
+     "linked": [{"dop": "dtc", "not_inherited": ["P0123"]}]},
 ]
 FIXED_SIMPLE = ["u8", "u16", "u16le", "u24", "s8", "s16le", "f32", "b2", "b4", "a3", "w2", "lin8",
-                "linf", "txt", "bcd16", "dtc", "f64le"]
+                "linf", "txt", "bcd16", "dtc", "f64le", "dtc_linked"]
 BITS_SIMPLE = ["u4", "u3", "u1", "u12", "s12sm", "u8mask"]
 OPEN_SIMPLE = ["mmz", "mmf", "mmu", "ll8", "ll16s"]
 
@@ -65,7 +70,11 @@ OPEN_SIMPLE = ["mmz", "mmf", "mmu", "ll8", "ll16s"]
 def good_value(o: J, layer_by: Dict[str, J], r: random.Random, depth: int = 0) -> Any:
     t = o["t"]
     if t == "DTCDOP":
-        return r.choice(o["dtcs"])["code"]
+        codes = [d["code"] for d in o["dtcs"]]
+        for ln in o.get("linked") or []:
+            codes += [d["code"] for d in layer_by[ln["dop"]]["dtcs"]
+                      if d["name"] not in (ln.get("not_inherited") or [])]
+        return r.choice(codes)
     if t == "DOP":
         d = o["dct"]
         base = d["base"]
@@ -179,6 +188,8 @@ def assignments(msg: J, layer: J, r: random.Random, n: int = 6) -> List[Dict[str
     ncases = [len(by[p["dop"]]["cases"]) for p in msg["params"]
               if p.get("dop") in by and by[p["dop"]]["t"] == "MUX"]
     n = max([n] + ncases)
+    if layer.get("name") == "probes":
+        n = max(n, 6)  # one message per construct: a few more assignments each
     for i in range(n):
         _ROT[0] = i
         try:
@@ -309,7 +320,40 @@ def probe_layer() -> J:
     rq("p_lenkey2", [sid(), {"p": "LENGTH-KEY", "name": "lk", "byte": None, "bit": None, "dop": "u8",
                              "id": "LK.p_lenkey2.lk"},
                      p_value("num", "pl_uint")], "length-key-uint")
+    # RESERVED bits that start inside a byte and cross its end, followed by an implicitly
+    # positioned parameter
+    rq("p_reserved_bits", [sid(), {"p": "RESERVED", "name": "rsv", "byte": None, "bit": 4, "bits": 8},
+                           p_value("after", "u8"),
+                           {"p": "RESERVED", "name": "rsv2", "byte": None, "bit": 6, "bits": 3},
+                           p_value("after2", "u16")], "reserved-bits-crossing")
+    # tables with non-integer keys
+    dobjs.append({"t": "TABLE", "name": "tab_str", "key_dop": "a3", "semantic": "X",
+                  "rows": [{"name": "r_abc", "key": "abc", "struct": "st_c2"},
+                           {"name": "r_xyz", "key": "xyz", "dop": "u16"}]})
+    rq("p_table_strkey", [sid(), {"p": "TABLE-KEY", "name": "tk", "byte": None, "bit": None,
+                                  "table": "tab_str"},
+                          {"p": "TABLE-STRUCT", "name": "ts", "byte": None, "bit": None, "key": "tk"}],
+       "table-string-key")
+    dobjs.append({"t": "TABLE", "name": "tab_bytes", "key_dop": "b2", "semantic": "X",
+                  "rows": [{"name": "r_0102", "key": b"\x01\x02", "struct": "st_c1"},
+                           {"name": "r_a0b0", "key": b"\xa0\xb0", "dop": "u8"}]})
+    rq("p_table_byteskey", [sid(), {"p": "TABLE-KEY", "name": "tk", "byte": None, "bit": None,
+                                    "table": "tab_bytes"},
+                            {"p": "TABLE-STRUCT", "name": "ts", "byte": None, "bit": None, "key": "tk"}],
+       "table-bytes-key")
     # 9 DTC
+    rq("p_dtc_linked", [sid(), p_value("code", "dtc_linked"), p_value("st", "u8")], "dtc-linked")
+    # environment data inside repeated records: every record has its own DTC
+    dobjs.append({"t": "ENVDATA", "name": "er_all", "params": [p_value("common", "u8")], "dtcs": None})
+    dobjs.append({"t": "ENVDATA", "name": "er_1", "params": [p_value("e1", "u16")], "dtcs": [0x000001]})
+    dobjs.append({"t": "ENVDATA", "name": "er_2", "params": [p_value("e2a", "u8"), p_value("e2b", "s8")],
+                  "dtcs": [0x012345, 0xC10000]})
+    dobjs.append({"t": "ENVDESC", "name": "edd_rec", "param_snref": "code",
+                  "envdatas": ["er_all", "er_1", "er_2"]})
+    dobjs.append(_struct("st_rec", [p_value("code", "dtc"), p_value("status", "u8"),
+                                    p_value("env", "edd_rec")]))
+    dobjs.append({"t": "EOPFIELD", "name": "eop_rec", "struct": "st_rec", "min": None, "max": None})
+    rq("p_env_records", [sid(), p_value("recs", "eop_rec")], "env-data-in-records")
     rq("p_dtc", [sid(), p_value("code", "dtc"), p_value("st", "u8")], "dtc")
     # 10 environment data
     dobjs.append({"t": "ENVDATA", "name": "ed_all", "params": [p_value("common", "u8")], "dtcs": None})
@@ -446,8 +490,8 @@ def compose_layer(idx: int, r: random.Random, n_msgs: int, depth: int) -> J:
         if x < 0.72:
             return u8const(pname, r.randrange(256))
         if x < 0.76:
-            return {"p": "RESERVED", "name": pname, "byte": None, "bit": None,
-                    "bits": r.choice([4, 8, 16])}
+            return {"p": "RESERVED", "name": pname, "byte": None, "bit": r.choice([None, None, 2, 4, 7]),
+                    "bits": r.choice([3, 4, 8, 12, 16])}
         if x < 0.80:
             return p_value(pname, "u16", default=r.randrange(65536))
         return p_value(pname, r.choice(FIXED_SIMPLE))
